@@ -815,6 +815,15 @@ int runner_main(int argc, char **argv, const Scenario &sc)
 			{
 				// a hang found by the watchdog shows up as 'hang' only if the alarm fires
 				if (o1.died) { key.vclass = "crash:" + o1.died_class(); }
+				else if (c.crash_class == "hang")
+				{
+					// the run time-out is the one wall-clock dependency of the machinery: a case that was cut off while
+					// all workers competed for the machine and completes in a fresh process is no hang (the plan is a
+					// pure function of its seed), and no sign of non-determinism either
+					printf("TIMEOUT-NOT-REPRODUCED scenario=%s case=%llu: cut off by the run time-out under load, completed in a fresh process\n",
+						sc.name.c_str(), (unsigned long long)c.k);
+					continue;
+				}
 				else
 				{
 					printf("GATE-FAIL scenario=%s case=%llu: crash (%s) did not reproduce in a fresh process\n",
